@@ -30,7 +30,9 @@ type Config struct {
 	TableAlign                   int // 0 default, 1 attribute, 2 style, 3 none
 	// footnote id prefix: 0 none; 1 "x-", 2 "doc-", 3 "article12-" through NewFootnote(WithFootnoteIDPrefix);
 	// 4 "x-" through goldmark.WithRendererOptions(WithFootnoteIDPrefix) (reaches the renderer by option name,
-	// after it was constructed); 5 a prefix *function* whose value depends on the document being rendered
+	// after it was constructed); 5 a prefix *function* whose value depends on the document being rendered;
+	// 6 both a fixed prefix and the prefix function, through goldmark.WithRendererOptions (option values travel in a
+	// map there: whichever the renderer prefers, every instance must prefer the same)
 	FnPrefix int
 	// TypoOff: typographer substitutions switched off with a nil replacement (the documented way):
 	// 0 none, 1 LeftDoubleQuote, 2 RightDoubleQuote, 3 the single quotes and the apostrophe, 4 all of them
@@ -41,7 +43,9 @@ type Config struct {
 	FnOpt int
 	// LinkProto: 0 default protocols; 1 NewLinkify(WithLinkifyAllowedProtocols(https:, ftp:)); 2 a protocol list that
 	// includes tel:, javascript:, data:, file:, vbscript: together with a URL pattern accepting any scheme
-	// (every linkified URL is still an AutoLink the safe renderer must vet)
+	// (every linkified URL is still an AutoLink the safe renderer must vet); 3 the protocol list of 2 with the
+	// permissive pattern \w+://[^\s]+ of the library's own option test (it matches "ssh://..." - after the
+	// trailing punctuation is trimmed nothing but the scheme is left)
 	LinkProto int
 	// RChan: how the renderer options reach the core HTML renderer: 0 goldmark.WithRendererOptions (by option name,
 	// through SetOption); 1 as functional options of html.NewRenderer, installed with goldmark.WithRenderer(
@@ -58,7 +62,10 @@ var looseEmail = regexp.MustCompile(`^[^\s@<>]+@[^\s@<>]+\.[^\s@<>]+`)
 // anySchemeURL is a user-supplied URL pattern (WithLinkifyURLRegexp) that accepts every scheme; it still needs a ':'.
 var anySchemeURL = regexp.MustCompile(`^[A-Za-z][A-Za-z0-9+.-]*:[^\s<]*[^\s<?!.,:*_~]`)
 
-var fnPrefixes = []string{"", "x-", "doc-", "article12-", "x-", ""}
+// wordSchemeURL is the permissive URL pattern of goldmark's own TestLinkifyWithAllowedProtocols.
+var wordSchemeURL = regexp.MustCompile(`\w+://[^\s]+`)
+
+var fnPrefixes = []string{"", "x-", "doc-", "article12-", "x-", "", "x-"}
 
 // FnPrefixFunc derives a per-document prefix from the tree the node belongs to (number of top-level blocks).
 func FnPrefixFunc(n ast.Node) []byte {
@@ -168,7 +175,7 @@ func ParseConfig(s string) Config {
 				c.RChan = int(tok[3]-'0') % 2
 			}
 			if strings.HasPrefix(tok, "lpr") && len(tok) == 4 {
-				c.LinkProto = int(tok[3]-'0') % 3
+				c.LinkProto = int(tok[3]-'0') % 4
 			}
 		}
 	}
@@ -202,6 +209,8 @@ func (c Config) Extensions() []goldmark.Extender {
 			exts = append(exts, extension.NewLinkify(extension.WithLinkifyAllowedProtocols(linkProtos[:2])))
 		case 2:
 			exts = append(exts, extension.NewLinkify(extension.WithLinkifyAllowedProtocols(linkProtos), extension.WithLinkifyURLRegexp(anySchemeURL), extension.WithLinkifyEmailRegexp(looseEmail)))
+		case 3:
+			exts = append(exts, extension.NewLinkify(extension.WithLinkifyAllowedProtocols(append([]string{"ssh:"}, linkProtos...)), extension.WithLinkifyURLRegexp(wordSchemeURL)))
 		default:
 			exts = append(exts, extension.Linkify)
 		}
@@ -304,6 +313,9 @@ func (c Config) RendererOptions() []renderer.Option {
 	if c.Footnote && c.FnPrefix == 4 {
 		o = append(o, extension.WithFootnoteIDPrefix(fnPrefixes[4]))
 	}
+	if c.Footnote && c.FnPrefix == 6 {
+		o = append(o, extension.WithFootnoteIDPrefix(fnPrefixes[6]), extension.WithFootnoteIDPrefixFunction(FnPrefixFunc))
+	}
 	if c.Footnote && c.FnOpt == 2 {
 		o = append(o, extension.WithFootnoteLinkTitle(`"<n ^^> & 'q'`), extension.WithFootnoteBacklinkTitle(`^%^^%%"&amp;`))
 	}
@@ -384,6 +396,8 @@ var Representative = []Config{
 	{RChan: 1, XHTML: true, HardWraps: true},
 	{RChan: 1, Unsafe: true, XHTML: true, Strike: true, DefList: true, Typo: true, CJK: 1, AutoID: true},
 	{Footnote: true, FnOpt: 2, FnPrefix: 1, XHTML: true, Linkify: true, LinkProto: 1, Strike: true},
+	{GFM: true, Footnote: true, FnPrefix: 6},
+	{Linkify: true, LinkProto: 3, Strike: true, Typo: true},
 }
 
 // ConfigOpts restricts DrawConfig.
@@ -418,7 +432,7 @@ func DrawConfig(t *rapid.T, o ConfigOpts) Config {
 			c.TableAlign = int((bits >> 18) % 4)
 		}
 		if b(20) && b(21) {
-			c.FnPrefix = 1 + int((bits>>22)%5)
+			c.FnPrefix = 1 + int((bits>>22)%6)
 		}
 		if b(25) && b(26) {
 			c.TypoOff = 1 + int((bits>>27)%4)
@@ -427,7 +441,7 @@ func DrawConfig(t *rapid.T, o ConfigOpts) Config {
 			c.FnOpt = 1 + int((bits>>31)%2)
 		}
 		if b(1) && b(16) {
-			c.LinkProto = 1 + int((bits>>24)%2)
+			c.LinkProto = 1 + int((bits>>24)%3)
 		}
 		if b(19) && b(23) {
 			c.RChan = 1
